@@ -18,8 +18,8 @@ LEVEL_NOTE = "Trusts rustc MIR, the extractor, tokio::spawn (detaches; dropping 
 EXPLANATION = ("Rules over the MIR of server::http_request_handle, its spawned coroutine, http_request_handle_wrap and Service::call from the current tree: TABLE (value of "
                "config.default_handler_task_mode -> execution context; the mode-specific parts of the body are found by conditional propagation of the enum variant through "
                "match / if let / matches! / == / copied locals / named flags, not by the shape of one switch), WHO-CALLS censuses (RouteHandler::handle_request, task abort APIs), ownership/give-up sites of the captured "
-               "worker against the Ready edge of the handler await, SAME-SOURCE (tx/rx of one oneshot::channel; sent value is the handler result), edge dominance of resume_unwind by "
-               "the Err edge of `rx.await`.")
+               "worker against the Ready edge of the handler await, SAME-SOURCE (tx/rx of one oneshot::channel; sent value is the handler result), resume_unwind reached only by executions in "
+               "which `rx.await` produced Err (normalised view, the body explored under the hypotheses Ok / Err for the received value -- match, let-else, `.ok()` + if let, is_err() flag alike).")
 TRUSTED = ["rustc nightly MIR", "mirfacts extractor", "rules/engine.py + rules/lib_c16.py", "tokio task / oneshot semantics", "waitgroup crate"]
 
 HANDLE = r"handler::RouteHandler::handle_request$"
@@ -39,13 +39,14 @@ class _A:
     is tested with match, if let, matches!, `==`, through a copied local or a named flag, or by an early return).
     A block is *exclusive* to a mode if it is reachable under that hypothesis and not under the other."""
 
-    def __init__(self, ctx, R):
-        self.top = ctx.need_fn(ctx.ds, R, r"^server::http_request_handle$")
-        self.hb = hb = ctx.ds.body_of(self.top)
+    def __init__(self, ctx, R, D=None):
+        self.D = D = D if D is not None else ctx.ds
+        self.top = ctx.need_fn(D, R, r"^server::http_request_handle$")
+        self.hb = hb = D.body_of(self.top)
         if not hb.raw.get("coroutine"):
             ctx.lost(R, "coroutine body of http_request_handle")
             raise _Lost()
-        adt = ctx.ds.adts.get(MODE_ADT)
+        adt = D.adts.get(MODE_ADT)
         names = [v["name"] for v in adt["variants"]] if adt else []
         if sorted(names) != ["CancelOnDisconnect", "Detached"]:
             ctx.lost(R, "enum %s with exactly the variants CancelOnDisconnect and Detached (found %s)" % (MODE_ADT, names))
@@ -53,6 +54,7 @@ class _A:
 
         def is_mode(pl):
             return any(isinstance(e, dict) and e.get("n") == MODE_FIELD for e in pl["p"])
+        self.names, self.is_mode = names, is_mode
         self.flow = {n: variant_flow(hb, assume=(lambda pl, i=i: i if is_mode(pl) else None)) for i, n in enumerate(names)}
         self.mode_from_config = all(f.used > 0 for f in self.flow.values())
         self.excl = {n: self.flow[n].reach - set().union(*[self.flow[m].reach for m in names if m != n]) for n in names}
@@ -62,6 +64,11 @@ class _A:
             raise _Lost()
         self.direct = hb.live_calls(HANDLE)
         self.spawns = hb.live_calls(SPAWN)
+
+    def flow_also(self, mode, also):
+        """The executions with task mode `mode` AND the further hypothesis `also(place) -> variant index | None`."""
+        i = self.names.index(mode)
+        return variant_flow(self.hb, assume=lambda pl: i if self.is_mode(pl) else also(pl), nested=True)
 
     def only(self, mode, bb):
         """Block bb runs only when the configured task mode is `mode`."""
@@ -91,9 +98,9 @@ class _Lost(Exception):
     pass
 
 
-def _anchors(ctx, R):
+def _anchors(ctx, R, D=None):
     try:
-        return _A(ctx, R)
+        return _A(ctx, R, D)
     except _Lost:
         return None
 
@@ -255,42 +262,57 @@ def r2_exactly_once(ctx):
 def r3_panic_propagation(ctx):
     R = ctx.rule("C16.R3", "resume_unwind is reachable only from the Err edge of `rx.await` in the Detached arm and re-raises the panic taken from the spawned task's JoinHandle; "
                  "the Ok edge yields the handler's result", floor=5)
-    A = _anchors(ctx, R)
+    # normalised view: `rx.await.ok()` + `if let Some(result) = .. else ..`, `rx.await.map_err(..)`, `let Ok(result) = rx.await else {..}` and
+    # `match rx.await {Ok.., Err..}` are one program there (the combinator is a switch on the received Result whose exits are threaded
+    # to the arms of the test that follows)
+    D = ctx.dsn
+    A = _anchors(ctx, R, D)
     if A is None:
         return
     hb = A.hb
-    ru = [(f, bb, t) for f, bb, t in callers(ctx.ds, r"panic::resume_unwind$|panic::panic_any$") if not f.id.startswith("test_util")]
+    ru = [(f, bb, t) for f, bb, t in callers(D, r"panic::resume_unwind$|panic::panic_any$") if not f.id.startswith("test_util")]
     ctx.check(R, "resume-unwind-census", len(ru) == 1 and ru[0][0] is hb, "resume_unwind / panic_any call sites in the crate: %s" % [(f.id) for f, _, _ in ru], hb)
     rx_aw = [a for a in awaits(hb, fut_type_rx=r"oneshot::Receiver") if A.only("Detached", a["poll_bb"])]
     if len(rx_aw) != 1 or rx_aw[0]["ready"] is None:
         ctx.lost(R, "the await on the oneshot receiver in the Detached arm (%d found)" % len(rx_aw))
         return
     aw = rx_aw[0]
-    sws = [(sbb, info) for sbb, info in result_switches_of(hb, aw["dest"]) if after_await(hb, aw, sbb) and "RecvError" in info.get("ty", "")]
-    if len(sws) != 1:
-        ctx.lost(R, "the switch on the Result of `rx.await` (%d found)" % len(sws))
+    # The two outcomes of the receive are told apart by hypothesis, like the task modes: the body is explored once under "Detached mode and
+    # `rx.await` produced Ok" and once under "... produced Err" (lib_c16.variant_flow follows only the edges such an execution can take:
+    # through match / if let / let-else on the received value, through the Option that `.ok()` makes of it, through is_ok()/is_err() flags).
+    received = set(await_payloads(hb, aw))
+    if not received:
+        ctx.lost(R, "the value produced by `rx.await`")
         return
-    sbb, info = sws[0]
-    err = variant_edge(hb, sbb, info, "Err")
-    okb = variant_edge(hb, sbb, info, "Ok")
+
+    def got(i):
+        return lambda pl: i if (pl["l"] in received and not pl["p"]) else None
+    f_ok, f_err = A.flow_also("Detached", got(0)), A.flow_also("Detached", got(1))
+    only_ok = f_ok.reach - f_err.reach - A.flow["CancelOnDisconnect"].reach
+    only_err = f_err.reach - f_ok.reach - A.flow["CancelOnDisconnect"].reach
+    site = (hb, aw["poll_bb"])
+    if not only_ok or not only_err:
+        ctx.lost(R, "a test of the Result of `rx.await` that separates `a result was received` from `the sender was dropped` (blocks run only after Ok: %d, only after Err: %d)" % (len(only_ok), len(only_err)))
+        return
     sp_d = [(bb, t) for bb, t in A.spawns if A.only("Detached", bb)]
     for f, bb, t in ru:
         if f is not hb:
             continue
-        dom = hb.edge_dominates(sbb, err, bb)
-        ctx.check(R, "resume-unwind-only-on-recv-error", dom, "resume_unwind %s dominated by the Err edge of rx.await (sender dropped without a result: the handler task died)" % ("is" if dom else "is NOT"), (hb, bb))
+        dom = bb in only_err
+        ctx.check(R, "resume-unwind-only-on-recv-error", dom, "resume_unwind %s run only when rx.await produced Err (sender dropped without a result: the handler task died)" % ("is" if dom else "is NOT"), (hb, bb))
         sl = hb.slice(t["args"][0])
         own = sl.has_call(r"JoinError::(into_panic|try_into_panic)$") and len(sp_d) == 1 and slice_has_call_at(sl, sp_d[0][0])
         ctx.check(R, "resume-unwind-reraises-the-task-panic", own, "the payload is JoinError::into_panic() of the JoinHandle returned by the Detached arm's spawn: %s" % own, (hb, bb))
-    # Ok edge: the response is the received result
-    # (the received value is itself the handler's Result: it is taken apart on the Ok edge -- by `?`, a match, if let .. --
-    # and the function's own result derives from it)
-    inner = [s2 for s2, i2 in result_switches_of(hb, aw["dest"], r"^std::result::Result$|^std::ops::ControlFlow$") if s2 != sbb and hb.edge_dominates(sbb, okb, s2)]
+    # Ok: the response is the received result
+    # (the received value is itself the handler's Result: it is taken apart -- by `?`, a match, if let .. -- and the function's own result
+    # derives from it; where it is taken apart does not matter: inside the arm (`Ok(result) => result?`) or after the two task modes
+    # joined again, when both arms evaluate to the handler's Result and one `?` follows the match / the awaited helper)
+    inner = [s2 for s2, i2 in result_switches_of(hb, aw["dest"], r"^std::result::Result$|^std::ops::ControlFlow$") if s2 in f_ok.reach and "RecvError" not in i2.get("ty", "")]
     resp_ok = bool(inner) and hb.slice({"l": 0, "p": []}).touches_local(aw["dest"])
-    ctx.check(R, "ok-edge-uses-received-result", resp_ok, "on the Ok edge the received handler result is taken apart (%d test(s)) and feeds the request future's own result: %s" % (len(inner), resp_ok), (hb, sbb))
-    # no panic on the Ok edge
-    div = [b for b in hb.reachable(okb, avoid=[sbb]) if hb.blocks[b]["term"]["t"] == "call" and "to" not in hb.blocks[b]["term"] and hb.edge_dominates(sbb, okb, b)]
-    ctx.check(R, "ok-edge-does-not-diverge", not div, "diverging calls on the Ok edge of rx.await: %d" % len(div), (hb, okb))
+    ctx.check(R, "ok-edge-uses-received-result", resp_ok, "when a result was received it is taken apart (%d test(s)) and feeds the request future's own result: %s" % (len(inner), resp_ok), site)
+    # no panic when a result was received
+    div = [b for b in only_ok if hb.blocks[b]["term"]["t"] == "call" and "to" not in hb.blocks[b]["term"]]
+    ctx.check(R, "ok-edge-does-not-diverge", not div, "diverging calls run only when rx.await produced Ok: %d" % len(div), (hb, div[0]) if div else site)
 
 
 
@@ -450,6 +472,15 @@ SELFTEST = [
     {"name": "received-result-matched", "kind": "benign", "why": "behaviour-preserving: `result?` on the received handler result written as an explicit match with `return Err(e)`; the JoinError handled by match instead of expect_err",
      "edits": [(_S, "                Ok(result) => result?,", "                Ok(result) => match result {\n                    Ok(rsp) => rsp,\n                    Err(handler_error) => return Err(handler_error),\n                },"),
                (_S, "            handler.handle_request(rqctx, request).await?\n", "            match handler.handle_request(rqctx, request).await {\n                Ok(rsp) => rsp,\n                Err(handler_error) => return Err(handler_error),\n            }\n")]},
+    {"name": "received-as-option", "kind": "benign", "why": "behaviour-preserving: `match rx.await {Ok.., Err(_)..}` written as `rx.await.ok()` followed by a match on the Option (R3 explores the body under the hypotheses `a result was received` / `the sender was dropped`, whatever carries that fact)",
+     "edits": [(_S, "            match rx.await {\n                Ok(result) => result?,\n                Err(_) => {", "            let received = rx.await.ok();\n            match received {\n                Some(result) => result?,\n                None => {")]},
+    {"name": "arms-yield-result-one-try-after", "kind": "benign", "why": "behaviour-preserving: both task-mode arms evaluate to the handler's Result and a single `?` follows the match",
+     "edits": [(_S, "            handler.handle_request(rqctx, request).await?\n", "            handler.handle_request(rqctx, request).await\n"),
+               (_S, "                Ok(result) => result?,", "                Ok(result) => result,"),
+               (_S, "        }\n    };\n    response.headers_mut().insert(", "        }\n    }?;\n    response.headers_mut().insert(")]},
+    {"name": "received-as-option-handler-error-unwinds", "kind": "mutant", "why": "Option spelling of the receive in which a handler *error* (a result was received) is flattened to None and takes the panic-propagation path",
+     "edits": [(_S, "            match rx.await {\n                Ok(result) => result?,\n                Err(_) => {", "            let received = rx.await.ok().and_then(|r| r.ok());\n            match received {\n                Some(rsp) => rsp,\n                None => {")],
+     "expect": ["C16.R3"]},
     {"name": "task-body-extracted-to-async-fn", "kind": "benign", "why": "behaviour-preserving: the detached task's body is an `async fn` called in the spawn argument instead of an inline async block",
      "edits": [(_S, "            let handler_task = tokio::spawn(async move {\n                let request_log = rqctx.log.clone();", "            let handler_task = tokio::spawn(run_detached(rqctx, handler, request, tx, worker));\n            #[cfg(any())]\n            let _unused = (async move {\n                let request_log = rqctx.log.clone();"),
                (_S, "async fn http_request_handle<C: ServerContext>(", "async fn run_detached<C: ServerContext>(\n    rqctx: RequestContext<C>,\n    handler: Arc<dyn crate::handler::RouteHandler<C>>,\n    request: Request<crate::Body>,\n    tx: oneshot::Sender<Result<Response<Body>, HandlerError>>,\n    worker: DebugIgnore<waitgroup::Worker>,\n) {\n    let request_log = rqctx.log.clone();\n    let result = handler.handle_request(rqctx, request).await;\n    if let Err(result) = tx.send(result) {\n        match result {\n            Ok(r) => warn!(request_log, \"request completed after handler was already cancelled\"; \"response_code\" => r.status().as_u16()),\n            Err(error) => warn!(request_log, \"request completed after handler was already cancelled\"; \"response_code\" => error.status_code().as_u16()),\n        }\n    }\n    mem::drop(worker);\n}\n\nasync fn http_request_handle<C: ServerContext>(")]},
